@@ -44,8 +44,13 @@ impl StateMachine<'_> {
                         .paint(commit.chars().take(12).collect::<String>()),
                 )?;
             }
+            Ok(true)
+        } else {
+            // Looks like a submodule line but is not one (e.g. an ordinary removed line that
+            // starts with "Subproject commit "): leave it to the other handlers instead of
+            // dropping it.
+            Ok(false)
         }
-        Ok(true)
     }
 }
 
